@@ -40,7 +40,7 @@ extern "C" Pterm * stub_getPterm(Logic *, PTRef t) {
 }
 static bool cfg_inter; static int status_val;
 static int g_level;                          // ghost assertion level of the solver (DUP_TERMS mode)
-extern "C" bool stub_isIncremental(SMTConfig const *) { return true; }
+extern "C" int stub_isIncremental(SMTConfig const *) { return 1; }
 extern "C" std::size_t stub_getAssertionLevel(MainSolver const *) { return (std::size_t)g_level; }
 extern "C" bool stub_solver_pop(MainSolver *) { if (g_level == 0) return false; g_level--; return true; }
 extern "C" bool stub_produce_inter(SMTConfig const *) { return cfg_inter; }
